@@ -103,7 +103,7 @@ Definition run_srv1 (op : Z) (a : args) : args :=
               let f := {| fn_code := c; fn_data := lst 1 a |} in
               do b <- fn_pack f;
               do g <- fn_unpack b (int 2 0 a) None;
-              Ok (fn_eqb_distinct g f && fn_eqb_distinct f g, g))
+              Ok (fn_eqb g f && fn_eqb f g, g))
   (* ---- VerificationParams ---- *)
   | 730 => ret (fun _ => [[0]]) (do v <- vp_of_args 0 a; vp_verify v (int 4 0 a))
   | 731 => ret (fun r => [fst r; [snd r]])
